@@ -4,119 +4,78 @@ import VaxisModel.Model.InputLoop
 /-!
 # C03 — "replies to Vaxis's own queries … update exactly the answer they report": the colour requesters
 
-Theorems over `Model/InputQuery.lean` (the `Sscanf` parse of `QueryColor`, `QueryForeground`,
-`QueryBackground`).  The hand-off of the payload (reply → `chColor`/`chFg`/`chBg` → requester) is
+Theorems over `Model/InputQuery.lean` (the parse of the reply by `QueryColor`, `QueryForeground`,
+`QueryBackground`: `parseColorReply` since the F303 repair).  The hand-off of the payload (reply → `chColor`/`chFg`/`chBg` → requester) is
 the LTS of `Model/InputLoop.lean`; `Driver/C03` composes both and compares with the real requesters.
 -/
 namespace VaxisModel.Props.C03Query
 open VaxisModel.Model.InputQuery VaxisModel.Model.Color VaxisModel.Lemmas.InputQuery
 open VaxisModel.Model.Input VaxisModel.Model.InputLoop
 
-/-- A group of hexadecimal digits as the terminal may send it for one channel. -/
-def Group (ds : List Nat) : Prop := ds ≠ [] ∧ (∀ d ∈ ds, (hexVal d).isSome = true) ∧ ds.length ≤ 15
+/-- The channels of a well-formed reply contain no `/`. -/
+private theorem no_slash (ds : List Nat) (v : Nat) (h : xparseChannel ds = some v) : ∀ x ∈ ds, x ≠ 47 := by
+  rw [← parseChannel_eq_xparse] at h
+  unfold parseChannel at h
+  split at h
+  · cases h
+  · cases hn : hexNum ds 0 with
+    | none => simp [hn] at h
+    | some w => intro x hx; exact (hex_ne_slash x (hexNum_all_hex ds 0 w hn x hx)).1
 
-/-- **What the requester gets for which reply.**  For every literal prefix `lit` (`4;<idx>;rgb:`,
-`10;rgb:`, `11;rgb:`), every three groups of 1–15 hexadecimal digits (any case) and every trailing
-text that does not continue the last number: the parse succeeds with the three values, and the
-colour returned is the direct colour made of the **low byte** of each value. -/
-theorem query_reply_parsed (lit r g b tail : List Nat) (hr : Group r) (hg : Group g) (hb : Group b)
-    (ht : ∀ c, tail.head? = some c → isNumRune c = false) :
-    ∃ vr vg vb, hexNum r 0 = some vr ∧ hexNum g 0 = some vg ∧ hexNum b 0 = some vb ∧
-      sscanf3 lit (lit ++ (r ++ 47 :: (g ++ 47 :: (b ++ tail)))) = some ((vr : Int), (vg : Int), (vb : Int)) ∧
-      colorOfReply lit (lit ++ (r ++ 47 :: (g ++ 47 :: (b ++ tail)))) = rgbColor (vr % 256) (vg % 256) (vb % 256) := by
-  have hs : ∀ (x : List Nat) c, (47 :: x).head? = some c → isNumRune c = false := by
-    intro x c hc; simp at hc; subst hc; exact slash_not_num
-  obtain ⟨vr, e1, _, s1⟩ := scanHex_digits r (47 :: (g ++ 47 :: (b ++ tail))) hr.1 hr.2.1 hr.2.2 (hs _)
-  obtain ⟨vg, e2, _, s2⟩ := scanHex_digits g (47 :: (b ++ tail)) hg.1 hg.2.1 hg.2.2 (hs _)
-  obtain ⟨vb, e3, _, s3⟩ := scanHex_digits b tail hb.1 hb.2.1 hb.2.2 ht
-  have hp : sscanf3 lit (lit ++ (r ++ 47 :: (g ++ 47 :: (b ++ tail)))) = some ((vr : Int), (vg : Int), (vb : Int)) := by
-    unfold sscanf3
-    simp [matchLit_app, s1, s2, s3, matchLit]
-  refine ⟨vr, vg, vb, e1, e2, e3, hp, ?_⟩
-  unfold colorOfReply
-  rw [hp]
-  have u : ∀ n : Nat, u8 (n : Int) = n % 256 := by
-    intro n; unfold u8; omega
-  simp [u]
+/-- **The answer is exactly the colour the reply reports** (F303 repaired), for every digit count:
+for every literal prefix (`4;<idx>;rgb:`, `10;rgb:`, `11;rgb:`) and every three channels each of
+which XParseColor accepts — 1, 2, 3 or 4 hexadecimal digits, either case — the requester returns
+the direct colour whose channels are the XParseColor readings (value scaled to 16 bits, high byte).
+`Witness/F303` proves the same statement false of the parse the code had before the repair. -/
+theorem query_reply_exact : ExactFor colorOfReply := by
+  intro lit r g b vr vg vb hr hg hb
+  have sr := no_slash r vr hr
+  have sg := no_slash g vg hg
+  have sb := no_slash b vb hb
+  simp only [colorOfReply, matchLit_app, splitOn_sep_app 47 r _ sr, splitOn_sep_app 47 g _ sg, splitOn_nosep 47 b sb,
+    parseChannel_eq_xparse, hr, hg, hb]
+
+/-- Every digit count separately, as the terminal may mix them: `rgb:f/ff/fff` and `rgb:ffff/…`. -/
+example : colorOfReply litFg (ascii "10;rgb:f/ff/fff") = rgbColor 255 255 255 ∧
+    colorOfReply litBg (ascii "11;rgb:1234/5678/9abc") = rgbColor 0x12 0x56 0x9a ∧
+    colorOfReply (litColor 15) (ascii "4;15;rgb:8/80/800") = rgbColor 0x88 0x80 0x80 ∧
+    colorOfReply litFg (ascii "10;rgb:B9/01/a5") = rgbColor 0xb9 0x01 0xa5 := by decide
+
+/-- The value returned always fits the three `uint8` channels of `RGBColor` (the conversion in
+`rgb[i] = uint8(…)` cuts nothing). -/
+theorem query_reply_channel_range (ds : List Nat) (v : Nat) (h : parseChannel ds = some v) : v < 256 :=
+  parseChannel_lt ds v h
 
 /-- A reply that does not start with the literal prefix of the query (another index, another OSC
 number, a truncated payload) makes the requester return `Color(0)`. -/
 theorem query_reply_rejected (lit resp : List Nat) (h : matchLit lit resp = none) : colorOfReply lit resp = 0 := by
-  simp [colorOfReply, sscanf3, h]
+  simp [colorOfReply, h]
 
-private theorem hv (d : Nat) (h : (hexVal d).isSome = true) : ∃ v, hexVal d = some v ∧ v < 16 := by
-  cases e : hexVal d with
-  | none => simp [e] at h
-  | some v => exact ⟨v, rfl, hexVal_lt d v e⟩
+/-- A reply with the right prefix but not exactly three channels, or with a channel that is not 1–4
+hexadecimal digits, makes the requester return `Color(0)` — nothing else happens (no panic: the
+model has no partial operation here). -/
+theorem query_reply_malformed (lit rest : List Nat) :
+    ((splitOn 47 rest).length ≠ 3 → colorOfReply lit (lit ++ rest) = 0) ∧
+    (∀ a b c, splitOn 47 rest = [a, b, c] → (parseChannel a = none ∨ parseChannel b = none ∨ parseChannel c = none) →
+      colorOfReply lit (lit ++ rest) = 0) := by
+  refine ⟨?_, ?_⟩
+  · intro h
+    simp only [colorOfReply, matchLit_app]
+    split
+    · rename_i heq; simp [heq] at h
+    · rfl
+  · intro a b c hs h
+    simp only [colorOfReply, matchLit_app, hs]
+    rcases h with h | h | h
+    · simp [h]
+    · cases parseChannel a <;> simp [h]
+    · cases parseChannel a <;> cases parseChannel b <;> simp [h]
 
-/-- **8 bits per channel** (`rgb:hh/hh/hh`, what most terminals send): the requester returns
-exactly the reported colour — the XParseColor reading of the reply. -/
-theorem query_reply_exact_8bit (lit tail : List Nat) (a1 a2 b1 b2 c1 c2 : Nat)
-    (h : ∀ d ∈ [a1, a2, b1, b2, c1, c2], (hexVal d).isSome = true)
-    (ht : ∀ c, tail.head? = some c → isNumRune c = false) :
-    ∃ r g b, xparseChannel [a1, a2] = some r ∧ xparseChannel [b1, b2] = some g ∧ xparseChannel [c1, c2] = some b ∧
-      colorOfReply lit (lit ++ ([a1, a2] ++ 47 :: ([b1, b2] ++ 47 :: ([c1, c2] ++ tail)))) = rgbColor r g b := by
-  obtain ⟨x1, e1, l1⟩ := hv a1 (h _ (by simp)); obtain ⟨x2, e2, l2⟩ := hv a2 (h _ (by simp))
-  obtain ⟨y1, f1, m1⟩ := hv b1 (h _ (by simp)); obtain ⟨y2, f2, m2⟩ := hv b2 (h _ (by simp))
-  obtain ⟨z1, g1, n1⟩ := hv c1 (h _ (by simp)); obtain ⟨z2, g2, n2⟩ := hv c2 (h _ (by simp))
-  have grp : ∀ p q, (hexVal p).isSome = true → (hexVal q).isSome = true → Group [p, q] := by
-    intro p q hp hq
-    refine ⟨by simp, ?_, by simp⟩
-    intro d hd; simp at hd; rcases hd with rfl | rfl <;> assumption
-  obtain ⟨vr, vg, vb, k1, k2, k3, _, hc⟩ := query_reply_parsed lit [a1, a2] [b1, b2] [c1, c2] tail
-    (grp _ _ (h _ (by simp)) (h _ (by simp))) (grp _ _ (h _ (by simp)) (h _ (by simp))) (grp _ _ (h _ (by simp)) (h _ (by simp))) ht
-  simp [hexNum, e1, e2, f1, f2, g1, g2] at k1 k2 k3
-  have und : ∀ d, (hexVal d).isSome = true → d ≠ 95 := by
-    intro d hd; have := hexVal_range d hd; omega
-  have na1 := und a1 (h _ (by simp)); have na2 := und a2 (h _ (by simp))
-  have nb1 := und b1 (h _ (by simp)); have nb2 := und b2 (h _ (by simp))
-  have nc1 := und c1 (h _ (by simp)); have nc2 := und c2 (h _ (by simp))
-  refine ⟨x1 * 16 + x2, y1 * 16 + y2, z1 * 16 + z2, ?_, ?_, ?_, ?_⟩
-  · simp [xparseChannel, hexNum, e1, e2]; omega
-  · simp [xparseChannel, hexNum, f1, f2]; omega
-  · simp [xparseChannel, hexNum, g1, g2]; omega
-  · rw [hc, ← k1, ← k2, ← k3]
-    have : ∀ a b : Nat, a < 16 → b < 16 → (a * 16 + b) % 256 = a * 16 + b := by intro a b _ _; omega
-    rw [this _ _ l1 l2, this _ _ m1 m2, this _ _ n1 n2]
-
-/-- **16 bits per channel, the byte repeated** (`rgb:hhhh/…` with both bytes equal — what xterm and
-foot send for an 8-bit colour): the low byte kept by the requester is the reported colour. -/
-theorem query_reply_exact_16bit_repeated (lit tail : List Nat) (a1 a2 b1 b2 c1 c2 : Nat)
-    (h : ∀ d ∈ [a1, a2, b1, b2, c1, c2], (hexVal d).isSome = true)
-    (ht : ∀ c, tail.head? = some c → isNumRune c = false) :
-    ∃ r g b, xparseChannel [a1, a2, a1, a2] = some r ∧ xparseChannel [b1, b2, b1, b2] = some g ∧
-      xparseChannel [c1, c2, c1, c2] = some b ∧
-      colorOfReply lit (lit ++ ([a1, a2, a1, a2] ++ 47 :: ([b1, b2, b1, b2] ++ 47 :: ([c1, c2, c1, c2] ++ tail)))) = rgbColor r g b := by
-  obtain ⟨x1, e1, l1⟩ := hv a1 (h _ (by simp)); obtain ⟨x2, e2, l2⟩ := hv a2 (h _ (by simp))
-  obtain ⟨y1, f1, m1⟩ := hv b1 (h _ (by simp)); obtain ⟨y2, f2, m2⟩ := hv b2 (h _ (by simp))
-  obtain ⟨z1, g1, n1⟩ := hv c1 (h _ (by simp)); obtain ⟨z2, g2, n2⟩ := hv c2 (h _ (by simp))
-  have grp : ∀ p q, (hexVal p).isSome = true → (hexVal q).isSome = true → Group [p, q, p, q] := by
-    intro p q hp hq
-    refine ⟨by simp, ?_, by simp⟩
-    intro d hd; simp at hd; rcases hd with rfl | rfl | rfl | rfl <;> assumption
-  obtain ⟨vr, vg, vb, k1, k2, k3, _, hc⟩ := query_reply_parsed lit [a1, a2, a1, a2] [b1, b2, b1, b2] [c1, c2, c1, c2] tail
-    (grp _ _ (h _ (by simp)) (h _ (by simp))) (grp _ _ (h _ (by simp)) (h _ (by simp))) (grp _ _ (h _ (by simp)) (h _ (by simp))) ht
-  simp [hexNum, e1, e2, f1, f2, g1, g2] at k1 k2 k3
-  have und : ∀ d, (hexVal d).isSome = true → d ≠ 95 := by
-    intro d hd; have := hexVal_range d hd; omega
-  have na1 := und a1 (h _ (by simp)); have na2 := und a2 (h _ (by simp))
-  have nb1 := und b1 (h _ (by simp)); have nb2 := und b2 (h _ (by simp))
-  have nc1 := und c1 (h _ (by simp)); have nc2 := und c2 (h _ (by simp))
-  refine ⟨x1 * 16 + x2, y1 * 16 + y2, z1 * 16 + z2, ?_, ?_, ?_, ?_⟩
-  · simp [xparseChannel, hexNum, e1, e2]; omega
-  · simp [xparseChannel, hexNum, f1, f2]; omega
-  · simp [xparseChannel, hexNum, g1, g2]; omega
-  · rw [hc, ← k1, ← k2, ← k3]
-    have : ∀ a b : Nat, a < 16 → b < 16 → (((a * 16 + b) * 16 + a) * 16 + b) % 256 = a * 16 + b := by intro a b _ _; omega
-    rw [this _ _ l1 l2, this _ _ m1 m2, this _ _ n1 n2]
-
-/-- Non-vacuity: `10;rgb:B9/01/a5` followed by junk → #b901a5; what `Sscanf` also lets through
-(blank, sign, 17 digits) and what it refuses (`_`, a missing group, a newline). -/
-example : colorOfReply litFg (ascii "10;rgb:B9/01/a5 x") = rgbColor 0xb9 0x01 0xa5 := by decide
-example : colorOfReply (litColor 15) (ascii "4;15;rgb:-1/+0a/ 1f") = rgbColor 0xff 0x0a 0x1f := by decide
-example : colorOfReply litBg (ascii "11;rgb:ff/ff/12345678901234567") = 0 := by decide
-example : colorOfReply litBg (ascii "11;rgb:f_f/00/00") = 0 ∧ colorOfReply litBg (ascii "11;rgb:ff/ff") = 0 ∧
-    colorOfReply litBg (ascii "11;rgb:ff/\nff/ff") = 0 ∧ colorOfReply (litColor 3) (ascii "4;30;rgb:ff/ff/ff") = 0 := by decide
+/-- Non-vacuity of the rejections: what the old `Sscanf` let through and XParseColor does not
+(blank, sign, trailing text, 5 digits), `_`, a missing channel, another index. -/
+example : colorOfReply (litColor 15) (ascii "4;15;rgb:-1/+0a/ 1f") = 0 ∧ colorOfReply litFg (ascii "10;rgb:B9/01/a5 x") = 0 ∧
+    colorOfReply litBg (ascii "11;rgb:ff/ff/12345") = 0 ∧ colorOfReply litBg (ascii "11;rgb:f_f/00/00") = 0 ∧
+    colorOfReply litBg (ascii "11;rgb:ff/ff") = 0 ∧ colorOfReply (litColor 3) (ascii "4;30;rgb:ff/ff/ff") = 0 := by decide
 
 /-- The prologue of `QueryColor`: no capability → `Color(0)` without a query; an RGB colour is
 returned as is; an indexed colour asks for its index; the default colour has no index. -/
@@ -168,30 +127,36 @@ example :
 
 /-! ## Tie to the source (`Gen/Caps.lean`, regenerated on every run) -/
 
-/-- The three requesters are the ones the model transcribes: capability guard, (for `QueryColor`)
-the `Params` prologue, the drop of a stale reply (F203 repaired), the query, one receive from the
-reply channel, `Sscanf` with the literal prefix and `rgb:%x/%x/%x` into three `int`s, `Color(0)`
-on error, `RGBColor(uint8(r), uint8(g), uint8(b))`. -/
+/-- The three requesters and the parser they share are the ones the model transcribes: capability
+guard, (for `QueryColor`) the `Params` prologue, the drop of a stale reply (F203 repaired), the
+query, one receive from the reply channel, `parseColorReply` with the prefix of the query,
+`Color(0)` on failure; `parseColorReply`: prefix + `rgb:`, split at `/`, exactly three channels,
+each 1–4 bytes, `ParseUint(ch, 16, 16)`, scaled by `0xFFFF / (1<<(4n) - 1)`, high byte (F303
+repaired). -/
 theorem query_requesters_shape :
     Gen.Caps.qc_stmts = [
       "if !vx.CanReportColor() { return Color(0) }", "p := c.Params()", "if len(p) == 3 { return c }",
       "if len(p) != 1 { return Color(0) }", "select { case <-vx.chColor: default: }",
-      "vx.tw.WriteStringLocked(tparm(osc4, p[0]))", "resp := <-vx.chColor", "var r, g, b int",
-      "prefix := fmt.Sprintf(\"4;%v;\", p[0])", "_, err := fmt.Sscanf(resp, prefix+\"rgb:%x/%x/%x\", &r, &g, &b)",
-      "if err != nil { log.Error(\"QueryColor: failed to parse the OSC 4 response: %s\", err) return Color(0) }",
-      "return RGBColor(uint8(r), uint8(g), uint8(b))"] ∧
+      "vx.tw.WriteStringLocked(tparm(osc4, p[0]))", "resp := <-vx.chColor",
+      "prefix := fmt.Sprintf(\"4;%v;\", p[0])", "col, ok := parseColorReply(resp, prefix)",
+      "if !ok { log.Error(\"QueryColor: failed to parse the OSC 4 response: %s\", resp) return Color(0) }",
+      "return col"] ∧
     Gen.Caps.qf_stmts = [
       "if !vx.CanReportForegroundColor() { return Color(0) }", "select { case <-vx.chFg: default: }",
-      "vx.tw.WriteStringLocked(osc10)", "resp := <-vx.chFg", "var r, g, b int",
-      "_, err := fmt.Sscanf(resp, \"10;rgb:%x/%x/%x\", &r, &g, &b)",
-      "if err != nil { log.Error(\"QueryForeground: failed to parse the OSC 10 response: %s\", err) return Color(0) }",
-      "return RGBColor(uint8(r), uint8(g), uint8(b))"] ∧
+      "vx.tw.WriteStringLocked(osc10)", "resp := <-vx.chFg", "col, ok := parseColorReply(resp, \"10;\")",
+      "if !ok { log.Error(\"QueryForeground: failed to parse the OSC 10 response: %s\", resp) return Color(0) }",
+      "return col"] ∧
     Gen.Caps.qb_stmts = [
       "if !vx.CanReportBackgroundColor() { return Color(0) }", "select { case <-vx.chBg: default: }",
-      "vx.tw.WriteStringLocked(osc11)", "resp := <-vx.chBg", "var r, g, b int",
-      "_, err := fmt.Sscanf(resp, \"11;rgb:%x/%x/%x\", &r, &g, &b)",
-      "if err != nil { log.Error(\"QueryBackground: failed to parse the OSC 11 response: %s\", err) return Color(0) }",
-      "return RGBColor(uint8(r), uint8(g), uint8(b))"] ∧
+      "vx.tw.WriteStringLocked(osc11)", "resp := <-vx.chBg", "col, ok := parseColorReply(resp, \"11;\")",
+      "if !ok { log.Error(\"QueryBackground: failed to parse the OSC 11 response: %s\", resp) return Color(0) }",
+      "return col"] ∧
+    Gen.Caps.pr_stmts = [
+      "if !strings.HasPrefix(resp, prefix+\"rgb:\") { return Color(0), false }",
+      "channels := strings.Split(strings.TrimPrefix(resp, prefix+\"rgb:\"), \"/\")",
+      "if len(channels) != 3 { return Color(0), false }", "var rgb [3]uint8",
+      "for i, ch := range channels { n := len(ch) if n < 1 || n > 4 { return Color(0), false } v, err := strconv.ParseUint(ch, 16, 16) if err != nil { return Color(0), false } max := uint64(1)<<(4*n) - 1 rgb[i] = uint8(v * 0xFFFF / max >> 8) }",
+      "return RGBColor(rgb[0], rgb[1], rgb[2]), true"] ∧
     colorDrainGen = true ∧ fgDrainGen = true ∧ bgDrainGen = true := by decide +kernel
 
 end VaxisModel.Props.C03Query
